@@ -172,7 +172,7 @@ def const_value(prog, module, e):
     return prog.try_fold(module, e)
 
 
-def block_env(stmts, target, env=None):
+def block_env(stmts, target, env=None, unpack=False):
     """Reaching simple definitions `name = expr` at `target` inside a statement list (descending into
     the compound statement that contains the target). A definition is dropped as soon as one of the names
     its right-hand side mentions (or the name itself) is stored again. Returns {name: expr} or None."""
@@ -193,10 +193,10 @@ def block_env(stmts, target, env=None):
             for blk in ("body", "orelse", "finalbody"):
                 b = getattr(s, blk, None) or []
                 if any(contains(x, target) for x in b):
-                    return block_env(b, target, env)
+                    return block_env(b, target, env, unpack)
             for h in getattr(s, "handlers", []) or []:
                 if any(contains(x, target) for x in h.body):
-                    return block_env(h.body, target, env)
+                    return block_env(h.body, target, env, unpack)
             return env
         stored = {x.id for x in ast.walk(s) if isinstance(x, ast.Name) and isinstance(x.ctx, ast.Store)}
         if isinstance(s, ast.Assign) and len(s.targets) == 1 and isinstance(s.targets[0], ast.Name):
@@ -206,6 +206,17 @@ def block_env(stmts, target, env=None):
         elif isinstance(s, ast.AnnAssign) and isinstance(s.target, ast.Name) and s.value is not None:
             kill(stored)
             env[s.target.id] = s.value
+        elif (unpack and isinstance(s, ast.Assign) and len(s.targets) == 1 and isinstance(s.targets[0], ast.Tuple)
+              and all(isinstance(e, ast.Name) for e in s.targets[0].elts)):
+            # a, b = expr  ->  a = expr[0], b = expr[1]   (a, b = x, y  ->  a = x, b = y)
+            kill(stored)
+            names = [e.id for e in s.targets[0].elts]
+            if not any(isinstance(x, ast.Name) and x.id in names for x in ast.walk(s.value)):
+                for i, nm in enumerate(names):
+                    if isinstance(s.value, ast.Tuple) and len(s.value.elts) == len(names):
+                        env[nm] = s.value.elts[i]
+                    else:
+                        env[nm] = ast.Subscript(value=s.value, slice=ast.Constant(value=i), ctx=ast.Load())
         else:
             kill(stored)
     return None
